@@ -253,6 +253,11 @@ STAR_FRAME_SIZES = (10, 12, 15, 16, 19, 20, 31)
 
 def run_write_case(case: dict) -> list[tuple[str, str]]:
     cls = case["cls"]
+    if case.get("large"):
+        seq = [(T.I(f"http://a/s{i}"), T.I("http://a/p"), T.L(str(i))) for i in range(1700)]
+        log, frames = observe_write(case["api"], "triple", case["entry"], seq, case["frame_size"],
+                                    (4000, 150, 32))
+        return judge_write(log, frames, len(seq), case["frame_size"])
     if case.get("star"):
         seq = [star_statement(k) for k in range(case["star"])]
         log, frames = observe_write("generic", "triple", case["entry"], seq, case["frame_size"],
@@ -401,7 +406,33 @@ def star_shard(job) -> dict:
     return acc.out()
 
 
+def large_shard(job) -> dict:
+    """Frame sizes in the thousands (any per-call shortcut that only looks at the size now and
+    then shows up here): 1700 statements with fresh subjects, two to three rows each."""
+    acc = pool.Acc()
+    seq = [(T.I(f"http://a/s{i}"), T.I("http://a/p"), T.L(str(i))) for i in range(1700)]
+    for api in ("generic", "rdflib"):
+        for entry in ("flat_to_frames", "stream_frames"):
+            for fs in (1000, 1024, 1500, 2048):
+                case = {"side": "write", "api": api, "cls": "triple", "entry": entry,
+                        "large": True, "frame_size": fs}
+                acc.evals += 1
+                acc.nontrivial += 1
+                try:
+                    log, frames = observe_write(api, "triple", entry, seq, fs, (4000, 150, 32))
+                    fails = judge_write(log, frames, len(seq), fs)
+                except Exception as e:  # noqa: BLE001
+                    fails = [("raised", f"{type(e).__name__}: {e}")]
+                for kind, msg in fails[:3]:
+                    acc.violation({"side": "write", "fail": kind, "entry": entry, "api": api,
+                                   "large": True}, f"{msg} case={case}", case)
+    acc.extra = {"states": [], "steps": 0}
+    return acc.out()
+
+
 def _dispatch(job) -> dict:
+    if job[0] == "large":
+        return large_shard(job)
     if job[0] == "star":
         return star_shard(job)
     return write_shard(job[1]) if job[0] == "w" else read_shard(job[1])
@@ -418,6 +449,7 @@ def run(ctx) -> None:
                 for lo, hi in pool.split_range(n, 2 if ctx.quick else 8):
                     jobs.append(("w", (api, cls, entry, L, lo, hi)))
     jobs.append(("star",))
+    jobs.append(("large",))
     rjobs = [("r", (size, i)) for i in range(len(corpus.base_streams(size)))]
     merged = pool.merge(pool.pmap(_dispatch, jobs + rjobs))
     ctx.add(merged)
